@@ -105,7 +105,7 @@ CHECKS = {
     "C01": {
         "level": "translation_validation",
         "technique": "TLA+ reference semantics Core (Accept/Run) + TLC generators GenExpr/GenProg/GenData/GenCtl/GenColl/GenObj; generated programs compiled by the real "
-                     "`incan build`, run, compared with Run(p); recorded executions validated by TLC (PipelineTrace)",
+                     "`incan build`, run, compared with Run(p); recorded executions validated by TLC (PipelineTrace); multi-module projects from GenMod (the same declarations split over files, all placements / import forms): same output as the flat program",
         "text": "Core.tla is an independent statement of the documented static and dynamic semantics of the modelled subset; TLC enumerates "
                 "programs (expressions to a depth bound, statement programs via a frame machine, data types / match / `?`, control-flow chains x loop "
                 "contexts x jumps, string / collection / closure / comprehension / f-string / tuple operations, models and classes with methods, "
@@ -119,7 +119,7 @@ CHECKS = {
     "C02": {
         "level": "exploration",
         "technique": "Program space from the TLA+ generators (Core-accepted programs with feature tags) + frozen corpus; real checker => real "
-                     "emitter => real rustc build, failures mapped back to cases and matched against tag signatures",
+                     "emitter => real rustc build, failures mapped back to cases and matched against tag signatures; GenMod projects accepted by the checker must build (each rustc / generator error a symptom, matched with spec-computed module tags)",
         "text": "The specification supplies the program space and its feature tags; the property itself is the pipeline implication observed on "
                 "the real tools: every sampled program that the real checker accepts must generate and build. rustc diagnostics are mapped "
                 "back to the generated case functions; each failure is a (stage, rustc code, tags) symptom.",
@@ -150,7 +150,7 @@ CHECKS = {
     "C11": {
         "level": "exploration",
         "technique": "TLA+-generated inputs (Layout class strings with exact lex verdict, the literal grammar GenLit, Core programs) + seeded mutation operators; every "
-                     "front-end stage monitored in a watchdog with catch_unwind; diagnostics checked for well-formedness and rendered",
+                     "front-end stage monitored in a watchdog with catch_unwind; diagnostics checked for well-formedness and rendered; ill-founded declaration graphs (GenDeclGraph: cycles / dangling references through extends, field types, newtypes, payloads, trait signatures)",
         "text": "Totality is a statement about all UTF-8 inputs; the specification structures the walk (all layouts up to the bound with an "
                 "exact oracle for the lexer's verdict, valid generated programs as mutation seeds) and the harness monitors lex, parse, "
                 "check, format and emit on every input (termination, no panic, non-empty diagnostics, spans in range / on scalar "
@@ -188,7 +188,7 @@ CHECKS = {
                      "Rules (documented rule table x hosts x blocks), GenTypes (assignability relation over a type universe x value forms x 8 flow "
                      "sites) and GenHole (ill-typed expression x expression contexts x statement contexts); every case and its well-typed twin "
                      "through the real checker; "
-                     "a diagnostic must intersect the offending construct",
+                     "a diagnostic must intersect the offending construct; GenMod negatives: one needed import dropped in one module (the specification's linker says where the link breaks) must be rejected in that module",
         "text": "For the Core-expressible rules TLC constructs a well-typed program, applies one mutation operator at one position inside "
                 "0..3 nested blocks of every kind and emits it only if the specification's Accept rejects it and accepts the twin; the "
                 "remaining listed rules are a documented table walked over hosts x nested blocks. The real checker must reject every "
@@ -201,7 +201,7 @@ CHECKS = {
         "technique": "TLA+ spec Modules (three resolvers transcribed as instances of one parametric resolver + cause analysis, visibility "
                      "transcription, four collector worklist machines): TLC exhaustive over the bounded layout x import universe and all "
                      "import graphs; every case materialised as a real tree and asked of collect_modules / resolve_import_path / "
-                     "ModuleResolver / ModuleCollector / the real language server; visit sequences validated by TLC (ModulesTrace)",
+                     "ModuleResolver / ModuleCollector / the real language server; visit sequences validated by TLC (ModulesTrace); GenMod.tla (the documented linker: imports written by the generator are resolved by Modules!Resolve, pub exactly on what is imported) - linked projects must be accepted, a dropped `pub` must be rejected",
         "text": "Modules.tla models project layouts as sets of paths, the documented resolution, the three resolver implementations side "
                 "by side, the checker's handling of imported symbols and the collectors' worklist loops. TLC proves the transcriptions are "
                 "instances of one parametric resolver, names every disagreement by the algorithmic differences that cause it, and proves "
@@ -244,7 +244,7 @@ CHECKS = {
     "C13": {
         "level": "translation_validation",
         "technique": "TLA+ spec Rename (consistent renaming on Core programs; TLC checks Accept/Run invariance for every position x candidate "
-                     "name); renamed programs through the real checker, emitter, rustc and execution, compared with the original's behaviour",
+                     "name); renamed programs through the real checker, emitter, rustc and execution, compared with the original's behaviour; names reused from a disjoint scope of the same program (closure parameter / match binding / parameter named like a later local or a field)",
         "text": "Rename.tla defines consistent renaming and TLC verifies on the model that it preserves the static verdict and the behaviour, "
                 "so the expected behaviour of a renamed program is the original's. For the six Core binding positions the TLC-renamed "
                 "program is rendered and compiled; for eight further positions (type, field, method, method parameter, enum, variant, match "
